@@ -134,8 +134,75 @@ func c05Typed(o *Out, b []byte) {
 
 // frozen classes of recorded findings (see KNOWN_FINDINGS.txt); "" = none
 func classifyC05(b []byte, dest string, mode int) string {
+	if mode != 0 {
+		// the stream decoder skips one leading ',' or ':' (StreamLeadingSeparator)
+		t := bytes.TrimLeft(b, " \t\r\n")
+		if len(t) > 0 && (t[0] == ',' || t[0] == ':') {
+			rest := t[1:]
+			if stdjson.Valid(rest) {
+				return "StreamLeadingSeparator"
+			}
+			if c := classifyC05(rest, dest, 0); c != "" {
+				return c
+			}
+			return ""
+		}
+	}
+	if shapeAccepts(dest, b, false, false) {
+		return "" // the strict acceptor takes it although encoding/json.Valid does not: unexplained
+	}
+	if shapeAccepts(dest, b, true, false) {
+		return "SkipUnvalidated"
+	}
+	if shapeAccepts(dest, b, false, true) {
+		return "StructKeyUnvalidated"
+	}
+	if shapeAccepts(dest, b, true, true) {
+		return "SkipUnvalidated"
+	}
+	if mode != 0 && (bytes.IndexByte(b, '\\') >= 0 || bytes.IndexByte(b, 0) >= 0) {
+		// the stream-mode key and skip scanners lose track around an escape or
+		// a NUL byte (recorded as StreamSkipScannerLenient): explained when the
+		// text without its backslash pairs and NUL bytes is one of the lenient ones
+		var t []byte
+		for i := 0; i < len(b); i++ {
+			if b[i] == 0 {
+				continue
+			}
+			if b[i] == '\\' {
+				i++
+				continue
+			}
+			t = append(t, b[i])
+		}
+		if stdjson.Valid(t) || shapeAccepts(dest, t, true, true) {
+			return "StreamSkipScannerLenient"
+		}
+	}
+	if mode != 0 && dest != "array1" && bytes.IndexByte(b, '\\') >= 0 {
+		// stream-mode struct key scanners around an escaped quote: the stream
+		// decoder accepts what the buffer decoder of the same destination rejects
+		var mk func() interface{}
+		switch dest {
+		case "skip":
+			mk = func() interface{} { return &c05Skip{} }
+		case "raw":
+			mk = func() interface{} { return &c05Raw{} }
+		case "unmarshaler":
+			mk = func() interface{} { return &c05WithU{} }
+		case "slice-of-skip":
+			mk = func() interface{} { return &[]c05Skip{} }
+		case "map-of-skip":
+			mk = func() interface{} { return &map[string]c05Skip{} }
+		}
+		if mk != nil && verdict(func() error { return gojson.Unmarshal(b, mk()) }) == 'R' {
+			return "StreamStructKeyLenient"
+		}
+	}
 	return ""
 }
+
+func bytesReader(b []byte) *bytes.Reader { return bytes.NewReader(b) }
 
 var numRe = regexp.MustCompile(`-?[0-9][0-9.eE+-]*`)
 
@@ -190,6 +257,7 @@ func runC05(o *Out) {
 	for _, d := range corpusDocs {
 		c05Text(o, []byte(d), true)
 	}
+	byteSweep(func(b []byte) { c05Text(o, b, true) })
 	maxLen := 4
 	if thorough {
 		maxLen = 5
